@@ -6,7 +6,7 @@ package validitywindow
 // A container timestamp is acceptable at an execution timestamp iff it is a whole
 // multiple of the divisor, not earlier than the execution timestamp and at most
 // execution timestamp + validity window (mathematical right-hand side).
-//@ func VerifyTimestamp props C10
+//@ func VerifyTimestamp props C10 C09
 //@   requires divisor > 0 && validityWindow >= 0 && executionTimestamp + validityWindow <= MaxInt64
 //@   ensures (err == nil) == (containerTimestamp % divisor == 0 && containerTimestamp >= executionTimestamp && containerTimestamp <= executionTimestamp + validityWindow)
 //@   ensures containerTimestamp % divisor != 0 ==> is(err, ErrMisalignedTime)
@@ -56,7 +56,12 @@ package validitywindow
 // expiry is remembered, nothing remembered before is forgotten by the Add, and the accepted tip moves.
 //@ func (*TimeValidityWindow).Accept props C09
 //@   opt monitor v.mu
+//@   reveal expAt
 //@   noframe
 //@   modifies gmap("seen", v.seen)[], v.lastAcceptedBlockHeight
 //@   ensures v.lastAcceptedBlockHeight == Block.GetHeight(blk)
+// eviction soundness: an id whose expiry is not below the accepted block's timestamp stays remembered
+//@   ensures forall q string :: old(has(gmap("seen", v.seen), q)) && old(emap.expAt(gmap("seen", v.seen), q)) >= Block.GetTimestamp(blk) ==> has(gmap("seen", v.seen), q)
+// and nothing with a smaller expiry survives from before
+//@   ensures forall q string :: old(has(gmap("seen", v.seen), q)) && old(emap.expAt(gmap("seen", v.seen), q)) < Block.GetTimestamp(blk) && (forall j int :: 0 <= j && j < len(ExecutionBlock.GetContainers(blk)) ==> q != str(emap.Item.GetID(ExecutionBlock.GetContainers(blk)[j]))) ==> !has(gmap("seen", v.seen), q)
 //@   ensures forall j int :: 0 <= j && j < len(ExecutionBlock.GetContainers(blk)) && emap.Item.GetExpiry(ExecutionBlock.GetContainers(blk)[j]) != 0 ==> has(gmap("seen", v.seen), str(emap.Item.GetID(ExecutionBlock.GetContainers(blk)[j])))
